@@ -106,3 +106,48 @@ Print Assumptions C10_timeline_count.
 Print Assumptions C10_timeline_covers.
 Print Assumptions C10_pieces_uid.
 Print Assumptions C10_pieces_last.
+
+(* ---- int64 (second audit, N10; Kit/Int64.v, Model/Ops64.v, Proofs/Ops64Proofs.v) ----
+   [fragment64 fuel f l] does Fragment's arithmetic as Go does: StartAt - StartAt % f (truncating %), += f with
+   wrap-around, in a loop that Go does not bound; None = some cue's loop is still running after [fuel] tests of its
+   condition.  Range ([frag_range f x]): the cue's times are int64 values and start + f, end + f do not exceed MaxInt64 -
+   the last boundary computed is the first multiple of f at or after the end (or after the start), so this is what keeps
+   every += f from wrapping.  Inside the range, and with more fuel than the unbounded model's own bound
+   (end - start) / f + 2, the int64 model returns exactly [fragment f l]: every theorem above transfers.
+   Termination: a cue with start <= end has at most (end - start) / f + 2 pieces ((end - start) / f + 1 is NOT a bound:
+   [2,4) cut with period 3 has two pieces), which is why the fuel of [pieces] suffices.  Outside the range
+   Fragment(1<<62) on [0, MaxInt64) never terminates: no fuel gives a result. *)
+From Coq Require Import Lia.
+From Astisub Require Import Kit.Int64 Model.Ops64 Proofs.Ops64Proofs.
+Theorem C10_int64 : forall fuel f l, 0 < f -> Forall (frag_range f) l ->
+  Forall (fun x => (pieces_fuel_of f x < fuel)%nat) l -> fragment64 fuel f l = Some (fragment f l).
+Proof. exact fragment64_eq. Qed.
+Theorem C10_int64_nonpos : forall fuel f l, f <= 0 -> fragment64 fuel f l = Some l.
+Proof. exact fragment64_nonpos. Qed.
+Theorem C10_int64_cue : forall fuel f x, 0 < f -> frag_range f x -> (pieces_fuel_of f x < fuel)%nat ->
+  pieces64 fuel f x = Some (pieces f x).
+Proof. exact pieces64_eq. Qed.
+Theorem C10_piece_count : forall f x, 0 < f -> st x <= en x ->
+  Z.of_nat (length (pieces f x)) <= (en x - st x) / f + 2 /\ (length (pieces f x) <= S (pieces_fuel_of f x))%nat.
+Proof. exact pieces_count. Qed.
+Example C10_piece_count_tight :
+  length (pieces 3 (mkItem 1 2 4 [] None None false)) = 2%nat /\ (4 - 2) / 3 + 1 = 1 /\ (4 - 2) / 3 + 2 = 2.
+Proof. exact pieces_count_tight. Qed.
+(* outside the range: non-termination, for every fuel ... *)
+Theorem C10_int64_diverges : forall fuel, fragment64 fuel 4611686018427387904 [ex_frag_wrap] = None.
+Proof. exact fragment64_diverges. Qed.
+Example C10_int64_diverges_unbounded :
+  map (fun x => (st x, en x)) (fragment 4611686018427387904 [ex_frag_wrap]) = [(0, 4611686018427387904); (4611686018427387904, i64_max)] /\
+  ~ frag_range 4611686018427387904 ex_frag_wrap.
+Proof. exact fragment64_diverges_unbounded. Qed.
+(* ... or a loop that stops with another result *)
+Example C10_int64_wraps :
+  option_map (map (fun x => (st x, en x))) (fragment64 8 4611686018427387904 [mkItem 1 (i64_max - 1) 0 [] None None false]) =
+    Some [(i64_min, - 4611686018427387904); (- 4611686018427387904, 0); (i64_max - 1, i64_min)] /\
+  map (fun x => (st x, en x)) (fragment 4611686018427387904 [mkItem 1 (i64_max - 1) 0 [] None None false]) = [(i64_max - 1, 0)].
+Proof. exact fragment64_wraps. Qed.
+Print Assumptions C10_int64.
+Print Assumptions C10_int64_nonpos.
+Print Assumptions C10_int64_cue.
+Print Assumptions C10_piece_count.
+Print Assumptions C10_int64_diverges.
